@@ -180,5 +180,23 @@ PROPS["C09"] = dict(
     assumptions=["well-formed requests at the HTTP/JSON level only (malformed ones belong to C10)"],
 )
 
+PROPS["C10"] = dict(
+    pkg="c10", race=False, level="exploration", prepare="exec_projects",
+    projects_quick=[("uploads", ["v0"])], projects_thorough=[("uploads", ["v0"])],
+    quick=dict(shards=8, timeout=900), thorough=dict(shards=16, timeout=3000),
+    claim="structure-aware generation of malformed and well-formed client input against handler.Server over a generated upload schema: "
+          "JSON bodies of any shape (null, scalars, truncations, deep nesting, wrong member types, random bytes) on POST, SSE and "
+          "multipart/mixed, raw query strings on GET, raw bodies on application/graphql and urlencoded, and multipart upload forms built "
+          "from a grammar (five variable shapes, files shared between paths, both sides of MaxMemory/MaxUploadSize, and ten structural "
+          "defects incl. 25 hostile map paths); oracle: the recover hook never runs (resolvers never panic here), no panic escapes "
+          "ServeHTTP, the answer is a strict-JSON GraphQL response, a private TMPDIR is empty afterwards, oversized bodies run nothing, "
+          "and well-formed uploads deliver exact bytes/filename/content type to every mapped path through independently readable readers",
+    note="websocket frames are covered by C11's state machine; native byte-level fuzz targets are not part of the quick tier",
+    technique="grammar-based and mutation-based property testing (rapid) with a crash/recover-hook/round-trip oracle",
+    rule="evaluation = one request; non-trivial = a request with a structural defect that reaches the transport's decoding stage, or a "
+         "well-formed upload with >=2 mapped paths or spilled to disk; distinct by request bytes",
+    assumptions=["resolvers of the harness never panic in this check, so every recover-hook call is gqlgen's own panic"],
+)
+
 # properties deliberately not claimed (reason); anything else missing from PROPS is "not built yet"
 NOT_CLAIMED = {}
